@@ -354,11 +354,22 @@ pub fn number_from_string(string: &str, rule: Rule) -> Result<Number> {
                 Number::BigInt(no_prefix.to_owned())
             }
         }
-        Rule::integer => Number::Integer(as_str),
+        // a literal that does not fit an int is a bigint, which is also what constant folding makes of it
+        Rule::integer => {
+            if as_str.parse::<i32>().is_ok() {
+                Number::Integer(as_str)
+            } else {
+                Number::BigInt(as_str)
+            }
+        }
         Rule::hex_int => {
-            let as_hex = i128::from_str_radix(&as_str[2..], 16)?.to_string();
+            let as_hex = i128::from_str_radix(&as_str[2..], 16)?;
 
-            Number::Integer(as_hex)
+            if i32::try_from(as_hex).is_ok() {
+                Number::Integer(as_hex.to_string())
+            } else {
+                Number::BigInt(as_hex.to_string())
+            }
         }
         Rule::float => {
             if let Some(float_of_int) = as_str.strip_suffix(['F', 'f']) {
